@@ -39,7 +39,7 @@ HISTORY_CHECK = True   # last runs of every chunk are re-observed alone in a fre
 
 TIERS = {
     "quick":    {"runs": 1920,  "chunk": 60,  "hash_seeds": [0, 1, 2, 3], "max_steps": 40, "perms": 4, "timeout": 900},
-    "thorough": {"runs": 24000, "chunk": 300, "max_wall": 2400, "hash_seeds": [0, 1, 2, 3, 5, 8, 13, 21], "max_steps": 40, "perms": 6,
+    "thorough": {"history_check_cap": 200, "runs": 24000, "chunk": 300, "max_wall": 2400, "hash_seeds": [0, 1, 2, 3, 5, 8, 13, 21], "max_steps": 40, "perms": 6,
                  "timeout": 3400},
     "selftest": {"runs": 160,   "chunk": 20,  "hash_seeds": [0, 3], "max_steps": 40, "perms": 3, "timeout": 300},
 }
